@@ -145,6 +145,7 @@ class C06(Prop):
             'roots': st.lists(e, min_size=1, max_size=3),
             'copies': st.sampled_from([[0], [0], [0, 0], [0, 1], [0, 2], [0, 3]]),
             'chan': st.booleans(),
+            'succ': st.sampled_from([0, 0, 1, 2]),
         }).map(_number)
 
     # ------------------------------------------------------------------
@@ -158,7 +159,12 @@ class C06(Prop):
         def make(es, inst):
             cls = evclass.get(es['id'])
             if cls is None:
-                cls = evclass[es['id']] = type(Event)('e%d' % es['id'], (Event,), {'success': True})
+                ns = {'success': True}
+                if spec.get('succ') == 1 or (spec.get('succ') == 2 and es['id'] % 2):
+                    # the event class sends its success notification elsewhere (as circuits.node does); where the
+                    # waiting caller is resumed from is unaffected
+                    ns['success_channels'] = ('s',)
+                cls = evclass[es['id']] = type(Event)('e%d' % es['id'], (Event,), ns)
             return cls(inst)
 
         def tag(v, inst):
@@ -472,6 +478,8 @@ class C06(Prop):
             classes.append('two-copies-in-flight')
         if spec.get('chan'):
             classes.append('callers-and-callees-on-different-channels')
+        if spec.get('succ'):
+            classes.append('events-with-success_channels')
         if any(l[0] == 'watched' for l in log):
             classes.append('second-waiter-on-same-event')
         if any(l[0] == 'watch-timeout' for l in log):
